@@ -10,6 +10,7 @@ package roaring
 import (
 	"fmt"
 	"runtime/debug"
+	"strings"
 	"testing"
 
 	vk "github.com/pilosa/pilosa/internal/verifkit"
@@ -71,6 +72,7 @@ func (s *c02State) fail(check, msg string) *hFail {
 // not hide everything that follows it.
 func (s *c02State) soft(check, msg string) {
 	f := s.fail(check, msg)
+	f.Sig = f.Sig[:strings.Index(f.Sig, "@")] // a pure read: the signature is the read, the collection and the emptiness predicate
 	for _, g := range s.fails {
 		if g.Sig == f.Sig {
 			return
@@ -360,7 +362,7 @@ func TestVerifC02(t *testing.T) {
 		for _, f := range fs {
 			f := f
 			shrunk[f.Sig]++
-			if shrunk[f.Sig] > 3 {
+			if shrunk[f.Sig] > 2 {
 				r.Fail(f.Sig, id, f.Msg, nil) // counted; the first three per signature carry shrunk witnesses
 				continue
 			}
@@ -371,7 +373,7 @@ func TestVerifC02(t *testing.T) {
 					}
 				}
 				return nil
-			}, 150)
+			}, 80)
 			r.Fail(sf.Sig, id, sf.Msg, sh)
 		}
 	}
@@ -381,7 +383,7 @@ func TestVerifC02(t *testing.T) {
 		for _, coll := range []string{"slice", "btree"} {
 			hs := []*hHist{
 				// import into key 0 of a fresh bitmap, then read and add (B-tree lookaside zero value; slice Update on missing key)
-				{Coll: coll, Ops: []hOp{c02Import("ImportSet", "pilosa", 0, []uint16{1, 2, 3}), {Kind: "Add", Vals: hVals{4}}, {Kind: "Add", Vals: hVals{5}}}},
+				{Coll: coll, Ops: []hOp{hImportOp("ImportSet", "pilosa", 0, []uint16{1, 2, 3}), {Kind: "Add", Vals: hVals{4}}, {Kind: "Add", Vals: hVals{5}}}},
 				// Freeze then two adds into the same (now frozen) container
 				{Coll: coll, Ops: []hOp{{Kind: "Add", Vals: hVals{1}}, {Kind: "Freeze", Switch: true}, {Kind: "Add", Vals: hVals{10}}, {Kind: "Add", Vals: hVals{11}}}},
 				{Coll: coll, Ops: []hOp{{Kind: "Add", Vals: hVals{1}}, {Kind: "Freeze"}, {Kind: "Add", Vals: hVals{10}}, {Kind: "Add", Vals: hVals{11}}}},
@@ -389,7 +391,7 @@ func TestVerifC02(t *testing.T) {
 				{Coll: coll, Ops: []hOp{{Kind: "Add", Vals: hVals{5}}, {Kind: "Add", Vals: hVals{65536 + 7}}, {Kind: "Remove", Vals: hVals{65536 + 7}}}},
 				{Coll: coll, Ops: []hOp{{Kind: "Add", Vals: hVals{5}}, {Kind: "RemoveN", Vals: hVals{65536 + 7}}}},
 				{Coll: coll, Ops: []hOp{{Kind: "AddN", Vals: hVals{5, 65536 + 7, 131072 + 9}}, {Kind: "Remove", Vals: hVals{65536 + 7}}, {Kind: "Optimize"}, {Kind: "Add", Vals: hVals{131072 + 10}}}},
-				{Coll: coll, Ops: []hOp{{Kind: "AddN", Vals: hVals{5, 65536 + 7}}, c02Import("ImportClear", "official", 1, []uint16{7}), {Kind: "Add", Vals: hVals{6}}}},
+				{Coll: coll, Ops: []hOp{{Kind: "AddN", Vals: hVals{5, 65536 + 7}}, hImportOp("ImportClear", "official", 1, []uint16{7}), {Kind: "Add", Vals: hVals{6}}}},
 			}
 			for i, h := range hs {
 				r.Distinct(vk.Hash64("w", coll, i), true)
@@ -409,7 +411,7 @@ func TestVerifC02(t *testing.T) {
 						// values 0,2,4,... : n values = n runs
 						mk := func(kind string, lows ...uint16) hOp {
 							if kind == "ImportSet" || kind == "ImportClear" {
-								return c02Import(kind, "pilosa", key, lows)
+								return hImportOp(kind, "pilosa", key, lows)
 							}
 							var vs hVals
 							for _, l := range lows {
@@ -471,14 +473,4 @@ func TestVerifC02(t *testing.T) {
 			report(id, h, f)
 		}
 	})
-}
-
-func c02Import(kind, fmtName string, key uint64, lows []uint16) hOp {
-	vals := append([]uint16(nil), lows...)
-	op := hOp{Kind: kind, Fmt: fmtName, RowSize: 1}
-	enc := byte(containerArray)
-	op.spec.Conts = []vContSpec{{Key: key, Shape: "pool", Enc: vEncName(enc), N: len(vals), enc: enc, vals: vals}}
-	op.Encs = "a"
-	op.Vals = op.spec.vModel()
-	return op
 }
